@@ -268,12 +268,21 @@ func GenC07(r *hx.Rng, tier string, w io.Writer) {
 
 func GenC08(r *hx.Rng, tier string, w io.Writer) {
 	x := &g{w: w, r: r}
-	// corpus: an idle chain (all blocks empty) with a limit (recorded finding), and an initial height above 1
+	// corpus: an idle chain (all blocks empty) with a limit (repaired finding), and an initial height above 1
 	x.reset(1, 3)
 	for i := 0; i < 4; i++ {
 		x.produce(true)
 	}
 	x.sub("subh", "-")
+	x.sub("subd", "-")
+	x.sub("subd", "-")
+	x.produce(true)
+	// trailing empty blocks after a non-empty one: passed over by the second accepting data tick
+	x.reset(1, 2)
+	x.produce(false)
+	x.produce(true)
+	x.sub("subh", "-")
+	x.sub("subd", "-")
 	x.sub("subd", "-")
 	x.produce(true)
 	x.reset(5, 3)
@@ -313,13 +322,17 @@ func GenC08(r *hx.Rng, tier string, w io.Writer) {
 					x.sub("subd", x.script(2))
 				}
 			default:
-				// the DA layer is back: both loops tick with an accepting DA, then production must resume
+				// the DA layer is back: both loops tick with an accepting DA (the data loop twice: trailing empty
+				// blocks are passed over by the tick after the one that got the data before them accepted), then
+				// production must resume
 				x.sub("subh", "-")
+				x.sub("subd", "-")
 				x.sub("subd", "-")
 				x.produce(allEmpty)
 			}
 		}
 		x.sub("subh", "-")
+		x.sub("subd", "-")
 		x.sub("subd", "-")
 		x.produce(false)
 	}
